@@ -4,6 +4,11 @@ import json, subprocess
 
 # id -> (technique, level text, level note, design ref)
 CHECKS = {
+ "C16": ("proptest unannotated function bodies (symbolic dimension classes) + generated call sites; differential oracle inferred version vs the same body annotated with the printed signature",
+         "For each generated unannotated function the signature numbat prints is used to annotate the same body under another name: it must be accepted, every call site (half consistent by construction, half random) must be accepted by both or rejected by both, and accepted calls must agree in result type and value.",
+         "Two recorded classes of unparseable printed signatures (alternative dimension names joined by `or`, two-digit superscript exponents) are matched by signature.",
+         "DESIGN.md §4 C16"),
+
  "C01": ("proptest programs from a dimension-directed generator (TypedGen) whose requested dimension vectors are the independent reference; oracle = allowed error kinds + checker type + run-time unit of every value",
          "Programs that are dimensionally consistent by construction (rational/composite/unicode exponents, generic and inferred functions at several dimensions, structs, lists, user dimensions and units, conversions, conditionals) are run statement by statement: no rejection, no unit-incompatibility at run time, the checker's type of every definition equals the generator's vector, and the raw run-time unit of every global, struct field and list element has that dimension (RefDim).",
          "TypedGen's dimension bookkeeping is the reference dimensional analysis; two recorded finding classes (polymorphic literal 0, inexact floating-point exponent) are generated rarely and matched by signature.",
